@@ -65,6 +65,7 @@ class Sim(object):
         self.current = None
         self.now = 0                      # virtual microseconds
         self.events = []                  # heap of (time, n, fn, label)
+        self.stall = None                 # {'api', 'at', 'us'} thread-stall plan
         self._evn = 0
         self.seq = 0                      # global event sequence number
         self.steps = 0
@@ -311,6 +312,18 @@ class Sim(object):
             return
         self.steps += 1
         me.steps += 1
+        st = self.stall
+        if st is not None and st.get('tid') == me.tid:
+            # fault: this thread is descheduled for a while (a stalled
+            # thread, e.g. swapped out) at its n-th pre-emption point inside
+            # the API call that armed the plan
+            st['count'] += 1
+            if st['count'] > st['at']:
+                st['tid'] = None
+                self.stat('fault.thread-stall')
+                self.log('thread-stall', st['us'])
+                self.block(lambda: False, st['us'], reason='stalled')
+                return
         # NB: line numbers are deliberately not folded into the digest: the
         # order of line events inside `for cls in <set of classes>` loops
         # depends on object addresses, although their number does not.
@@ -411,7 +424,7 @@ class Sim(object):
             if all(t.state == DONE for t in self.threads):
                 # drain in-flight transport events so the peer sees the end
                 n = 0
-                while self.events and n < 10000:
+                while self.events and n < 200000:
                     self._fire_next()
                     n += 1
                 return
